@@ -233,20 +233,32 @@ def removeH (L C : Nat) (h : Int) (s : Option LP) (wbasis : Int) (asym : Int) : 
     removal queue is enabled — `QueueRemoval` writes a queue entry and the handler returns
     `types.ErrQueued`, an ERROR, so baseapp discards the entry together with the consumed unlock
     records (observation O5: the queue is never persisted) — else refused (`ErrRemovalsBlockedByHealth`).
-    `panic`: the `futurePool` subtraction underflowed. -/
+    `panic`: the `futurePool` subtraction underflowed.
+    `calcPanic`: the payout calculation itself (`CalculateWithdrawal{,FromUnits}`, which runs BEFORE
+    `UseUnlockedLiquidity`) panicked — e.g. a provider record with 0 units (an add that minted 0
+    units leaves one) removing by basis points: `poolUnitsF.Quo(unitsToClaim)` divides by zero.  Only
+    the refusals of the stages before the calculation (validation, no provider, asymmetry, units)
+    come first; everything else is the panic. -/
 inductive Health where
-  | pass | queue | block | panic
+  | pass | queue | block | panic | calcPanic
   deriving DecidableEq, Repr, Inhabited
+
+def gateAfter (hc : Health) (o : Option LP) : Except Err (Option LP) :=
+  match hc with
+  | .pass => .ok o
+  | .queue => .error .queued
+  | .block => .error .health
+  | .panic => .error .panic
+  | .calcPanic => .error .panic
+
+def beforeCalc : Err → Bool
+  | .validate | .nolp | .asym | .units => true
+  | _ => false
 
 def gate (hc : Health) (r : Except Err (Option LP)) : Except Err (Option LP) :=
   match r with
-  | .error e => .error e
-  | .ok o =>
-    match hc with
-    | .pass => .ok o
-    | .queue => .error .queued
-    | .block => .error .health
-    | .panic => .error .panic
+  | .error e => if hc = .calcPanic && !(beforeCalc e) then .error .panic else .error e
+  | .ok o => gateAfter hc o
 
 /-! ### AddLiquidity (what it does to the provider record): units grow by the minted amount (an
     environment value: computed by `CalculatePoolUnits`, outside this model); the unlock list is
